@@ -74,6 +74,10 @@ def gen_run(rnd, kind=None, tune=None, thin=None, maxP=10, special=None, integ=N
         cfg["randomize"] = rnd.random() < 0.5
         cfg["factors"] = [0.5 + rnd.randint(0, 64) / 64.0 for _ in range(P)]
         cfg["invdiag"] = [rnd.choice([1.0, 0.5, 2.0, 0.25]) for _ in range(d)]
+    if rnd.random() < 0.15:
+        # a starting model given as an integer array (whole numbers)
+        cfg["m0"] = [float(round(v)) for v in cfg["m0"]]
+        cfg["m0_dtype"] = "int"
     return cfg
 
 
@@ -172,7 +176,7 @@ def run_impl(cfg, workdir, sampler_hook=None, reuse=None, tag="run"):
             S.RWMH(seed=sd["seed"]).sample(fname, hmclab.Distributions.Normal(numpy.zeros((sd["d"], 1)), numpy.ones((sd["d"], 1))),
                                            proposals=sd["P"], online_thinning=sd["t"], overwrite_existing_file=True, disable_progressbar=True)
         numpy.seterr(all="warn")
-    kwargs = dict(initial_model=m0.copy(), proposals=cfg["P"], online_thinning=cfg["t"],
+    kwargs = dict(initial_model=(m0.astype(int) if cfg.get("m0_dtype") == "int" else m0.copy()), proposals=cfg["P"], online_thinning=cfg["t"],
                   overwrite_existing_file=True, autotuning=cfg["tune"], target_acceptance_rate=cfg["target"],
                   learning_rate=cfg["lr"], disable_progressbar=True)
     if cfg["kind"] == "rwmh":
